@@ -12,6 +12,7 @@ O == Construct(<<[name |-> "E", idl |-> [i \in 1..n |-> i], x |-> [i \in 1..n |-
 Ready == word # None
 RoundTrip == Ready => UnJack(JackOf(O.value, Xs(O))) = Xs(O)
 Variance  == Ready => JackVar(JackOf(O.value, Xs(O))) = NaiveVar(O)
+GammaS0   == Ready => NaiveIsGammaS0(O) /\ AllOnGrid(O.chains)
 Entry0    == Ready => JackOf(O.value, Xs(O))[1] = O.value /\ Len(JackOf(O.value, Xs(O))) = n + 1
 \* a cyclic-shift table {i, i, i+1, ...}: full rank; the all-equal table: rank 1
 ShiftTable == [k \in 1..n |-> [p \in 1..n |-> IF p = 1 THEN (k - 1) ELSE (k + p - 2) % n]]
